@@ -784,6 +784,34 @@ class Generator:
         m.note("join:" + how)
         return st
 
+    def g_selfjoin(self):
+        """join a table with a re-rooted copy of itself (alias / collect / clone / transfer)"""
+        m = self.m
+        rng = self.rng
+        T = m.model.toks
+        cands = [p for p in (m.tables[t] for t in self.tables()) if p.m.same_as in m.tables]
+        if not cands:
+            return self.g_alias()
+        s_ = rng.choice(cands)
+        t_ = m.tables[s_.m.same_as]
+        l, r = (t_, s_) if rng.random() < 0.5 else (s_, t_)
+        if not (set(l.real) & set(r.real)):
+            return None
+        # equality on a pair of corresponding visible int columns (same name on both sides)
+        names = [n for n in l.m.names() if r.m.tok_of_name(n) is not None and T[l.m.tok_of_name(n)].kind == "int" and l.m.tok_of_name(n) not in l.m.opaque]
+        if not names:
+            return None
+        n = rng.choice(names)
+        how = rng.choice(["inner", "left", "full"])
+        on = [{"p": "eq", "a": {"o": n}, "b": {"ro": n}}]
+        if rng.random() < 0.3:
+            on = [n]
+        st = {"op": "join", "l": l.id, "r": r.id, "on": on, "how": how, "selfjoin": True}
+        if rng.random() < 0.3:
+            st["suffix"] = "_r"
+        m.note("selfjoin_generated")
+        return st
+
     def g_union(self):
         m = self.m
         l = self.pick_table(lambda p: not p.m.grouping and p.m.visible)
